@@ -714,6 +714,10 @@ func (hm *hintMgr) loadHintsByChunk(chunkID int) (datasize uint32) {
 }
 
 func (h *hintMgr) ClearChunk(chunkID int) {
+	// the periodic dumper holds dumpLock while it writes split files: none of this chunk's old splits may
+	// still be on its way to disk, the new chunk reuses their file names
+	h.dumpLock.Lock()
+	defer h.dumpLock.Unlock()
 	h.chunks[chunkID] = newHintChunk(chunkID)
 	h.RemoveHintfilesByChunk(chunkID)
 }
